@@ -314,7 +314,15 @@ def run_impl(case):
                     res["ser_fn_same"] = serialize(x) == doc
                 except Exception:
                     res["ser_fn_same"] = False
-                res["doc_aliases"] = _poke(doc, lambda: json.dumps(C.rename_inline(dump.dump_value(x, ctx), ctx), sort_keys=True) == snap)
+                # the alias probe pokes the returned document: on a separate, fresh instance, so that a live
+                # document cannot corrupt the instance the round trip below starts from
+                try:
+                    xp = cls(**{k: dump.load_value(v, ctx) for k, v in case["kw"]})
+                    snap_p = json.dumps(C.rename_inline(dump.dump_value(xp, ctx), ctx), sort_keys=True)
+                    res["doc_aliases"] = _poke(Serializer(xp).serialize(),
+                                               lambda: json.dumps(C.rename_inline(dump.dump_value(xp, ctx), ctx), sort_keys=True) == snap_p)
+                except Exception:
+                    res["doc_aliases"] = False
             except Exception as e:
                 res["ser"] = {"err": C.err_name(e), "msg": str(e)[:200]}
                 return res
